@@ -384,22 +384,22 @@ def oracle_mps(case) -> Result:
             for (qn, a), g in list(zip(alphas, gs))[:6]:
                 i = int(torch.randint(0, a.numel(), (1,), generator=pick))
                 old = float(a.detach().view(-1)[i])
-                with torch.no_grad():
-                    a.view(-1)[i] = old + 0.05
-                mps(x)
-                c2 = float(get(name))
-                # 'its increase raises the metric' must not be rounding jitter of a cost model
-                # that rounds to whole cycles: a ten times larger increase must raise it as well
-                with torch.no_grad():
-                    a.view(-1)[i] = old + 0.5
-                mps(x)
-                c2b = float(get(name))
+                # 'its increase raises the metric' must hold at every scale: cost models that
+                # round to whole cycles (NE16 on small layers) are piecewise constant - flat
+                # around the point, with jumps further away - and a zero gradient is then right
+                raised = []
+                for delta in (0.005, 0.05, 0.5):
+                    with torch.no_grad():
+                        a.view(-1)[i] = old + delta
+                    mps(x)
+                    raised.append(float(get(name)))
                 with torch.no_grad():
                     a.view(-1)[i] = old
+                c2 = raised[1]
                 fd += 1
                 gi = 0.0 if g is None else float(g.flatten()[i])
                 tol = 1e-5 * max(1.0, cf)
-                if c2 - cf > tol and c2b - cf > tol and gi == 0.0:
+                if all(v - cf > tol for v in raised) and gi == 0.0:
                     res.bad('zero-gradient-although-raising-the-coefficient-raises-the-cost',
                             metric=name, selector=qn, index=i, cost=cf, cost_after=c2)
         mps(x)
